@@ -438,7 +438,7 @@ Proof. exact parse_runes_refs_ok. Qed.
 Print Assumptions C07_parser_block_types_nonempty.
 
 (* walker_returns for the instance: on every syntax tree of the parser the walker returns a file or positioned
-   errors, or says "outside the model" (maps of containers, non-ASCII map keys, > 300-rune float literals, a oneof
+   errors, or says "outside the model" (maps of containers, non-ASCII map keys, a oneof
    with two members set: model/CmpbWalk.v header) *)
 Theorem C07_walker_returns : forall mkR body, body_refs_ok body = true ->
   (exists w, j5s_walk_gen mkR body = Ok w) \/ j5s_walk_gen mkR body = Err E_UNMODELLED.
@@ -466,6 +466,41 @@ Print Assumptions C07_walker_split_delimiters_modelled.
 Example C07_example_split_delimiter :
   exists ss, bs_split (cont_spec (CSchema "j5.schema.v1.Ref")) = Some ss /\ sp_delim ss = Some "."%string.
 Proof. exact split_pieces_modelled_example. Qed.
+
+(* a second "outside the model" class is EMPTY for the translated schema: set_attribute answers "nested scalar
+   split" when its fuel (split_depth = 3) runs out, i.e. a container set from a scalar whose split targets are
+   again containers set from scalars, three deep.  For the translated schema every target of every split is one
+   name, no alias, a property of the container's own schema that is neither a container nor a map of containers
+   (proofs/CmpbWalkProofs.v schemas_split_terminal, computed over model/CmpbWalk.v schemas = WalkSchemaGen: a
+   split target that is itself a container breaks it at make time).  So for ANY container c whose block spec is
+   the one of its schema (every container the walker builds: the two mkCF sites), any value and state, ONE unit
+   of fuel suffices for setContainerFromScalar: the class is never reached with split_depth = 3. *)
+Theorem C07_walker_split_nesting_bounded : forall d0 c val s,
+  cf_spec c = cont_spec (cf_cont c) ->
+  set_container_from_scalar (fun sc' p' v' s' => set_attribute (S d0) sc' p' [] v' false s')
+                            (new_child_scope c) (cf_spec c) val s <> RUnmod "nested scalar split".
+Proof. exact split_nesting_bounded. Qed.
+Print Assumptions C07_walker_split_nesting_bounded.
+
+Example C07_example_split_nesting :
+  schema_split_terminal (match find_schema "j5.schema.v1.Ref" with Some d => d | None => mkSD "" false [] end) = true /\
+  exists ss, bs_split (cont_spec (CSchema "j5.schema.v1.Ref")) = Some ss /\ split_targets ss = [["schema"]; ["package"]]%string.
+Proof. exact split_nesting_example. Qed.
+
+(* a third class is MODELLED: float literals.  conv_scalar models strconv.ParseFloat(lit, 64) on every INT /
+   DECIMAL token (ASCII digits and the dot only - the lexer's digits are Unicode digits; range error iff the
+   integer part is >= 2^1024 - 2^970, where the correctly rounded value becomes +Inf), so it never answers
+   "outside the model"; every float property of the translated schema is float64 (no_float32_props, computed). *)
+Theorem C07_walker_float_literals_modelled : forall k a, conv_scalar k a <> ConvUnmod.
+Proof. exact conv_scalar_modelled. Qed.
+Print Assumptions C07_walker_float_literals_modelled.
+
+Example C07_example_float_literals :
+  conv_scalar KFloat (ATok (mkTok INT (50%N :: repeat 48%N 308) pos0 pos0) span0) = ConvErr /\
+  conv_scalar KFloat (ATok (mkTok INT (49%N :: repeat 48%N 308) pos0 pos0) span0) = ConvOk (2%N, 49%N :: repeat 48%N 308) /\
+  conv_scalar KFloat (ATok (mkTok DECIMAL [49; 46; 1635]%N pos0 pos0) span0) = ConvErr /\
+  conv_scalar KFloat (ATok (mkTok DECIMAL [49; 46]%N pos0 pos0) span0) = ConvOk (2%N, [49; 46]%N).
+Proof. exact float_literal_example. Qed.
 
 (* the protovalidate rules of the walker model were written from exactly the buf.validate annotations the two .proto
    files carry today, and each annotated field has a model rule or is one of the two stated exemptions *)
